@@ -31,7 +31,8 @@ def _one_generator(name: str) -> Report:
 
 def run_generators(rep: Report, names: List[str]) -> None:
     names = list(dict.fromkeys(names))
-    with cf.ProcessPoolExecutor(max_workers=min(len(names), os.cpu_count() or 4)) as ex:
+    import multiprocessing as mp
+    with cf.ProcessPoolExecutor(max_workers=min(len(names), os.cpu_count() or 4), mp_context=mp.get_context("spawn")) as ex:
         for sub in ex.map(_one_generator, names):
             common.merge_reports(rep, sub)
     rep.assume(*LIST_ASSUMPTIONS)
